@@ -8,6 +8,17 @@ of optical proagation
 import numpy
 from . import fouriertransform
 
+def _double(x):
+    """
+    A scalar argument in (at least) double precision: a numpy.float32 or integer
+    scalar would keep the scalar arithmetic of the propagators in its own type.
+    Arrays (e.g. a wavelength axis to broadcast over) and extended precision pass
+    through unchanged in shape and are only promoted.
+    """
+    x = numpy.asarray(x)
+    return x.astype(numpy.result_type(x.dtype, numpy.float64))[()]
+
+
 def angularSpectrum(inputComplexAmp, wvl, inputSpacing, outputSpacing, z):
     """
     Propogates light complex amplitude using an angular spectrum algorithm
@@ -27,9 +38,9 @@ def angularSpectrum(inputComplexAmp, wvl, inputSpacing, outputSpacing, z):
     if z==0:
         return inputComplexAmp
 
-    #scalars as Python floats: a numpy.float32 wavelength / spacing / distance
+    #scalars in double precision: a numpy.float32 wavelength / spacing / distance
     #would keep all the scalar arithmetic below in single precision
-    wvl, inputSpacing, outputSpacing, z = float(wvl), float(inputSpacing), float(outputSpacing), float(z)
+    wvl, inputSpacing, outputSpacing, z = _double(wvl), _double(inputSpacing), _double(outputSpacing), _double(z)
 
     N = inputComplexAmp.shape[0] #Assumes Uin is square.
     k = 2*numpy.pi/wvl     #optical wavevector
@@ -78,7 +89,7 @@ def oneStepFresnel(Uin, wvl, d1, z):
     Returns:
         ndarray: Complex ampltitude after propagation
     """
-    wvl, d1, z = float(wvl), float(d1), float(z)   #(see angularSpectrum)
+    wvl, d1, z = _double(wvl), _double(d1), _double(z)   #(see angularSpectrum)
 
     N = Uin.shape[0]    #Assume square grid
     k = 2*numpy.pi/wvl  #optical wavevector
@@ -115,7 +126,7 @@ def twoStepFresnel(Uin, wvl, d1, d2, z):
         ndarray: Complex ampltitude after propagation
     """
 
-    wvl, d1, d2, z = float(wvl), float(d1), float(d2), float(z)   #(see angularSpectrum)
+    wvl, d1, d2, z = _double(wvl), _double(d1), _double(d2), _double(z)   #(see angularSpectrum)
 
     N = Uin.shape[0] #Number of grid points
     k = 2*numpy.pi/wvl #optical wavevector
@@ -194,7 +205,7 @@ def lensAgainst(Uin, wvl, d1, f):
         ndarray: Output complex amplitude
     '''
 
-    wvl, d1, f = float(wvl), float(d1), float(f)   #(see angularSpectrum)
+    wvl, d1, f = _double(wvl), _double(d1), _double(f)   #(see angularSpectrum)
 
     N = Uin.shape[0] #Assume square grid
     k = 2*numpy.pi/wvl  #Optical Wavevector
@@ -210,6 +221,6 @@ def lensAgainst(Uin, wvl, d1, f):
     #phase factor inside cancelled by the phase of the lens
     #(in double precision whatever the storage type of the field: numpy's FFT
     #would otherwise run in single precision for float32 / complex64 input)
-    Uout = numpy.exp( 1j*k/(2*f) * (x2**2 + y2**2) )/ (1j*wvl*f) * fouriertransform.ft2( numpy.asarray(Uin, dtype=complex), d1)
+    Uout = numpy.exp( 1j*k/(2*f) * (x2**2 + y2**2) )/ (1j*wvl*f) * fouriertransform.ft2( numpy.asarray(Uin, dtype=numpy.result_type(Uin, numpy.complex128)), d1)
 
     return Uout
